@@ -13,6 +13,11 @@ from engine import es, flow, vf
 from engine.pdb import AnalysisBroken
 
 INET6_ADDRSTRLEN = 46
+# libc functions whose result is a function of their arguments (they may write errno)
+PURE = {"__isoc99_sscanf", "sscanf", "strchr", "strrchr", "strlen", "strnlen", "strtoul", "strtol", "strtoull", "strtoll", "memcpy", "memset", "memcmp",
+        "strncmp", "strcmp", "isdigit", "isxdigit", "lrtr_dbg", "inet_pton", "__ctype_b_loc", "toupper", "tolower", "__ctype_tolower_loc", "__ctype_toupper_loc"}
+STATEFUL = {"getenv", "setlocale", "localeconv", "rand", "random", "time", "clock_gettime", "strtok"}
+STATE_CELLS = {"__errno_location": "errno"}
 
 
 def r1(ctx):
@@ -92,12 +97,19 @@ def r2(ctx, retsets):
                 if isinstance(r, tuple) and r[0] == "g":
                     g = pdb.glob_in(fn.unit, r[1])
                     if not (g and g.get("const")):
-                        globs.append(i)
-        ctx.check(not globs, "C19.R2", "%s:no-global-state" % fname, (globs[0].loc() if globs else "%s:%d" % (fn.relfile, fn.line)),
-                  "reads/writes of mutable globals: %d" % len(globs), key="C19.R2:%s:globals" % fname)
-        allowed = {"lrtr_ipv4_str_to_addr", "lrtr_ipv6_str_to_addr", "__isoc99_sscanf", "sscanf", "strchr", "lrtr_dbg"}
-        other = sorted({c.callee for c in fn.calls() if c.callee and not c.callee.startswith("llvm.") and c.callee not in allowed})
-        ctx.check(not other, "C19.R2", "%s:callees" % fname, "%s:%d" % (fn.relfile, fn.line), "calls besides the parsers and sscanf/strchr: %s" % other, key="C19.R2:%s:callees" % fname)
+                        globs.append((i, r[1]))
+                # errno is global state too: reading it makes the verdict depend on what ran before (writing it is harmless)
+                if i.op == "load" and isinstance(r, tuple) and r[0] == "call" and r[1] in STATE_CELLS:
+                    globs.append((i, STATE_CELLS[r[1]]))
+        ctx.check(not globs, "C19.R2", "%s:no-global-state" % fname, (globs[0][0].loc() if globs else "%s:%d" % (fn.relfile, fn.line)),
+                  ("reads or writes %s" % sorted({g for _, g in globs})) if globs else "no mutable global, static or errno is read", key="C19.R2:%s:globals" % fname)
+        stateful = sorted({c.callee for c in fn.calls() if c.callee in STATEFUL})
+        ctx.check(not stateful, "C19.R2", "%s:callees" % fname, "%s:%d" % (fn.relfile, fn.line),
+                  "calls whose result depends on process state: %s" % (stateful or "none"), key="C19.R2:%s:callees" % fname)
+        unknown = sorted({c.callee for c in fn.calls() if c.callee and not c.callee.startswith("llvm.") and c.callee not in PURE and
+                          c.callee not in STATEFUL and c.callee not in STATE_CELLS and not pdb.has_fn(c.callee)})
+        if unknown:
+            raise AnalysisBroken("%s calls %s: not known to be free of hidden state" % (fname, unknown))
     # IPv6: cell 'no :: seen' and 'group count != 8' must not reach the assembly of the address
     fn = pdb.fn("lrtr_ipv6_str_to_addr")
     words = [a for a in fn.all_insts() if a.op == "alloca" and "x i16]" in a["aty"]]
@@ -153,10 +165,42 @@ def r2(ctx, retsets):
     move = [s_ for s_ in exp if vf.expr(fn, s_["val"])[0] == "load" and vf.root_of(vf.expr(fn, s_["val"])[1]) == W]
     ctx.check(bool(zero) and bool(move), "C19.R2", "ipv6:'::'-expansion-writes-all", (exp[0].loc() if exp else "%s:%d" % (fn.relfile, fn.line)),
               "expansion shifts the trailing groups and zero-fills the gap: shift %s, zero-fill %s" % (bool(move), bool(zero)), key="C19.R2:ipv6:expansion")
+    # family dispatch: a text with a ':' goes to the IPv6 parser, any other to the IPv4 parser; nothing is rejected or accepted
+    # without asking the parser, and the parser's verdict is the result (':' is in every IPv6 text and in no IPv4 text)
+    fd = pdb.fn("lrtr_ip_str_to_addr")
+    ctx.touch(fd)
+    v4, v6 = pdb.enum_value("LRTR_IPV4"), pdb.enum_value("LRTR_IPV6")
+    for has_colon in (True, False):
+        for verdict in (0, -1):
+            def classify(inst, E, st, has_colon=has_colon, verdict=verdict):
+                if inst.op == "call" and inst.callee in ("strchr", "memchr", "strrchr"):
+                    ch = flow.av_single(E.val(inst.args[1]))
+                    if vf.expr(fd, inst.args[0]) == ("arg", 0) and ch == ord(":"):
+                        return [(["asked-colon"], {inst.ref: (("nin", frozenset([0])) if has_colon else flow.av_in(0))})]
+                    return None
+                if inst.op == "call" and inst.callee in ("lrtr_ipv4_str_to_addr", "lrtr_ipv6_str_to_addr"):
+                    fam = "v4" if "ipv4" in inst.callee else "v6"
+                    dst = vf.expr(fd, inst.args[1])
+                    okargs = vf.expr(fd, inst.args[0]) == ("arg", 0) and vf.root_of(dst) == ("arg", 1)
+                    return [(["parse:" + fam + ("" if okargs else "?")], {inst.ref: flow.av_in(verdict)})]
+                if inst.op == "store" and vf.store_field(inst) == "lrtr_ip_addr.ver":
+                    return ["=ver:%s" % flow.av_single(E.val(inst["val"]))]
+                return None
+            outs_d, _f = es.count_effects(fd, pdb, classify, None)
+            fam = "v6" if has_colon else "v4"
+            want = {"asked-colon": 1, "parse:" + fam: 1, "ver": str(v6 if has_colon else v4)}
+            bad = [o for o in outs_d if o["counts"] != want or flow.av_single(o["ret"]) != verdict]
+            ctx.check(bool(outs_d) and not bad, "C19.R2", "ip_str_to_addr:dispatch[%s, parser says %d]" % ("':' present" if has_colon else "no ':'", verdict),
+                      "%s:%d" % (fd.relfile, fd.line),
+                      ("a path does %s and returns %s" % (bad[0]["counts"], flow.av_single(bad[0]["ret"]))) if bad else
+                      "every path asks the %s parser once with (text, &ip->u) and returns its verdict, version tag set" % fam,
+                      key="C19.R2:dispatch:%s:%d" % (has_colon, verdict))
     # IPv4
     f4 = pdb.fn("lrtr_ipv4_str_to_addr")
     sc = f4.calls(("__isoc99_sscanf", "sscanf"))
-    ctx.floor("C19.R2", len(sc), 1)
+    if not sc:
+        ctx.not_decided("lrtr_ipv4_str_to_addr no longer uses sscanf: 'octets only after four conversions' is not decided for this implementation")
+        return
     buff = [a for a in f4.all_insts() if a.op == "alloca" and "x i8]" in a["aty"]]
     loads = [i for i in f4.all_insts() if i.op == "load" and buff and vf.root_of(vf.expr(f4, i["ptr"])) == ("alloca", buff[0].id, buff[0].get("name", ""))]
     good = bool(loads)
